@@ -221,6 +221,19 @@ CHECKS['C09'] = dict(
     technique='Lean 4 proof (yields = plain segments + maximal loop instances for all consistent answer lists) + per-(document, loop id) differential and oracle',
     design='DESIGN.md §3 C09')
 
+CHECKS['C07'] = dict(
+    text='Lean theorem pipeline_total (PARTIAL): the composed model readAndCheck (tokenise with any read-size oracle -> envelope bookkeeping -> '
+         'per-segment element and syntax validation over an abstract matched-node oracle with well-formed nodes) never reaches a crash outcome, '
+         'and its outcome is a verdict or one of the documented refusals (pipeline_outcomes, reader_total); it assembles the totality theorems '
+         'of C01, C04, C13, C14, C15. NOT in the composition and therefore decided only by the fuzz: the walker-to-validation glue and map '
+         'switching, the error tree, the 997/999 visitors, the HTML and XML sinks, logging, the context reader\'s tree building. Tied to /repo '
+         'by a structural mutation fuzz (22 maps x 49 mutation kinds + arbitrary strings x sink subsets x charsets) through x12n_document, '
+         'X12Reader and X12ContextReader.iter_segments: any escaping exception other than the documented refusals is a violation keyed by '
+         'exception type and innermost pyx12 call site, with a shrunk replay; the reader-level outcome class is also compared with the model.',
+    note=COMMON_NOTE + ' PARTIAL: proof for the modelled core only; the rest of the pipeline is exercised, not proved. Exceptions swallowed inside the ack visitors belong to C06.',
+    technique='Lean 4 proof (no crash outcome in the composed reader/validation model) + structural mutation fuzz keyed by call site',
+    design='DESIGN.md §3 C07')
+
 PENDING_REASON = 'check under construction in this session (see DESIGN.md §3); not yet claimed'
 
 
